@@ -642,3 +642,78 @@ def rejection_points(body):
         if any(s not in acc for s in succ) and any(s in acc for s in succ):
             n += 1
     return n
+
+
+# ------------------------------------------------------------------ under which conditions does a check run at all
+def postdominators(body):
+    """pdom[b] = blocks that postdominate b (every path from b to an exit passes them); exits = blocks without successors"""
+    reach = body.reachable(0)
+    EXIT = -1
+    succ = {b: [s for s in body.succ(b) if s in reach] or [EXIT] for b in reach}
+    nodes = list(reach) + [EXIT]
+    full = set(nodes)
+    pdom = {b: set(full) for b in nodes}
+    pdom[EXIT] = {EXIT}
+    order = sorted(reach, reverse=True)
+    changed = True
+    while changed:
+        changed = False
+        for b in order:
+            new = set.intersection(*[pdom[s] for s in succ[b]]) | {b}
+            if new != pdom[b]:
+                pdom[b] = new
+                changed = True
+    return pdom
+
+
+def guard_profile(body):
+    """for every rejecting decision of `body`: the number of NON-rejecting decisions it is (transitively) control dependent on,
+    i.e. how many conditions must hold for the check to be executed at all.  Returns the sorted list of these depths."""
+    rej = reject_blocks(body)
+    if not rej:
+        return []
+    oks = set(ok_exits(body) if returns_result(body) else body.return_blocks()) - set(rej)
+    preds = body.preds()
+    acc = set()
+    st = list(oks)
+    while st:
+        x = st.pop()
+        if x in acc or x in rej:
+            continue
+        acc.add(x)
+        st.extend(preds.get(x, []))
+    reach = body.reachable(0)
+    switches = [sb for sb in reach if body.term(sb)["k"] == "switch"]
+    rejecting = set()
+    for sb in switches:
+        if sb in acc:
+            succ = body.succ(sb)
+            if any(s not in acc for s in succ) and any(s in acc for s in succ):
+                rejecting.add(sb)
+    pdom = postdominators(body)
+    # control dependence: x depends on s iff some successor t of s has x in pdom[t] (or x == t) and x does not strictly postdominate s
+    cd = {}
+    for s in switches:
+        for t in body.succ(s):
+            if t not in reach:
+                continue
+            for x in pdom[t]:
+                if x == -1:
+                    continue
+                if x != s and x in pdom[s]:
+                    continue
+                cd.setdefault(x, set()).add(s)
+    out = []
+    for d in sorted(rejecting):
+        seen, st, guards = set(), [d], set()
+        while st:
+            x = st.pop()
+            for s in cd.get(x, ()):
+                if s in seen or s == d:
+                    continue
+                seen.add(s)
+                if s not in rejecting:
+                    guards.add(s)
+                st.append(s)
+        out.append(len(guards))
+    return sorted(out)
